@@ -1,3 +1,5 @@
+import Pocket.Lemmas.FromSourceConsts
+import Pocket.Lemmas.FromSourceHex
 import Pocket.Lemmas.ParseWF
 import Pocket.Lemmas.ParseFilterWF
 /-
@@ -82,5 +84,16 @@ theorem parseFilter_wellformed (inp buf : Bytes) (c n : Nat) (out : Bytes)
 a truncated one is an error, not a panic -/
 example : (tagsFromJson [91, 91, 34, 97, 34, 44, 34, 98, 34, 93, 44, 91, 93, 93] (List.replicate 40 7)).isOk = true ∧
     tagsFromJson [91, 91, 34, 97] (List.replicate 40 7) = .err := by decide
+
+/-! ### tie to the source text: what /repo says now (translated on every run by `lib/srcfacts.py`) is what the model says -/
+
+/-- the table `json_unescape` reads its `\\u` digits from, by code point -/
+theorem unescape_hex_table_from_source (b : Nat) (hb : b < 256) :
+    hexVal b = (match Src.hexInverse[b]? with | some h => if h = 255 then none else some h | none => none) :=
+  hex_table_unescape_from_source b hb
+
+/-- the nesting bound of `burn_value` and the size of the table of tag-member positions -/
+theorem parser_bounds_from_source : Src.c_json_parse_MAX_BURN_DEPTH = [MAX_BURN_DEPTH] ∧ Src.startTagsLen = 52 :=
+  Pocket.parser_bounds_from_source
 
 end Pocket.C03
